@@ -160,6 +160,14 @@ func newKit2() *kit {
 		},
 		optimize: func(ops []solidG) solidG { return s2{model2d.JoinedSolid(native2(ops)).Optimize()} },
 		mux:      func(ops []solidG) muxG { return &mux2{model2d.NewSolidMux(native2(ops))} },
+		staged: func(ops []solidG, cuts []int) (solidG, solidG) {
+			all := native2(ops)
+			outer := model2d.JoinedSolid{}
+			for _, cut := range cuts {
+				outer = append(outer, model2d.JoinedSolid(all[:cut]))
+			}
+			return s2{outer}, s2{outer.Optimize()}
+		},
 
 		sdfLeaf: func(l *sdfLeafG) sdfG { return sdf2{&hSDF2{l}, l.desc()} },
 		libSDF: func(rng *rand.Rand, dyadic bool) sdfG {
